@@ -538,6 +538,34 @@ theorem lstep_userCall (hd : P.dscope = L.ds) (hs : LSetupOk L) (ih : LSim P L n
         · exact ⟨Or.inr ⟨rfl, hrp⟩, hpop⟩
         · cases fl <;> exact ⟨Or.inr ⟨rfl, hrp⟩, hpop⟩
 
+/-- Selected expressions of statement `i` evaluated in order with checks, in both runs. -/
+theorem lchecked (ih : LSim P L n) (miss : Err) : ∀ (items : List (Option Expr × (V → Except Err V))) (a b : St V) (f i : Nat)
+    (σ : SigM) (Γr : List Frame) (A : Nat → Prop),
+    (∀ e chk, (some e, chk) ∈ items → L.efitList f (tagsOf σ) i [e] = true) → ActOk L f σ Γr → ExprCtx L f σ A i →
+    LRel L (mkTop A σ ++ Γr) a b → LInv L b →
+    LOut L (mkTop A σ ++ Γr) (evalChecked (evalExpr P L.cfg n) miss items a) (evalChecked (evalExpr P plain n) miss items b) ∧
+      LInv L (evalChecked (evalExpr P plain n) miss items b).2
+  | [], a, b, f, i, σ, Γr, A, _, _, _, hr, hi => ⟨Or.inr ⟨rfl, hr⟩, hi⟩
+  | (none, _) :: _, a, b, f, i, σ, Γr, A, _, _, _, hr, hi => ⟨Or.inr ⟨rfl, hr⟩, hi⟩
+  | (some e, chk) :: rest, a, b, f, i, σ, Γr, A, h, ha, hc, hr, hi => by
+      simp only [evalChecked]
+      obtain ⟨ho, hq⟩ := ih.expr e a b f i σ Γr A (h e chk (by simp)) ha hc hr hi
+      chain (evalExpr P L.cfg n e a), (evalExpr P plain n e b), ho, hq
+      cases chk v with
+      | error er => exact ⟨Or.inr ⟨rfl, hrel'⟩, hq⟩
+      | ok v' =>
+        simp only []
+        obtain ⟨ho2, hq2⟩ := lchecked ih miss rest s1 s2 f i σ Γr A
+          (fun e' c' hm => h e' c' (List.mem_cons_of_mem _ hm)) ha hc hrel' hq
+        chain (evalChecked (evalExpr P L.cfg n) miss rest s1), (evalChecked (evalExpr P plain n) miss rest s2), ho2, hq2
+        exact ⟨Or.inr ⟨rfl, hrel'⟩, hq2⟩
+
+theorem efit_mem {f i : Nat} {σ : List (Option Nat)} {es : List Expr} (h : L.efitList f σ i es = true) :
+    ∀ e ∈ es, L.efitList f σ i [e] = true := by
+  intro e he
+  rw [efit_single]
+  exact eOk_mem es h e he
+
 theorem lstep_expr (hd : P.dscope = L.ds) (hs : LSetupOk L) (ih : LSim P L n) : ∀ (e : Expr) (a b : St V) (f i : Nat)
     (σ : SigM) (Γr : List Frame) (A : Nat → Prop),
     L.efitList f (tagsOf σ) i [e] = true → ActOk L f σ Γr → ExprCtx L f σ A i →
@@ -599,11 +627,8 @@ theorem lstep_expr (hd : P.dscope = L.ds) (hs : LSetupOk L) (ih : LSim P L n) : 
       simp only [evalExpr]
       exact lstep_generic hd hs ih _ a b f i σ Γr A (by rw [efit_list]; simp only [children, eOkList, Bool.and_true]; exact he') he ha hc hr hi
   | .member o fl s1 s2, a, b, f, i, σ, Γr, A, he, ha, hc, hr, hi => by
-      have he' := he
-      rw [efit_single] at he'
-      simp only [eOk] at he'
       simp only [evalExpr]
-      exact lstep_generic hd hs ih _ a b f i σ Γr A (by rw [efit_list]; simp only [children, eOkList, Bool.and_true]; exact he') he ha hc hr hi
+      exact lstep_generic hd hs ih _ a b f i σ Γr A (by rw [efit_list]; simp only [children, eOkList]) he ha hc hr hi
   | .call (.var name _ _) args fn _, a, b, f, i, σ, Γr, A, he, ha, hc, hr, hi => by
       rw [efit_single] at he
       simp only [eOk, Bool.and_eq_true] at he
@@ -637,13 +662,23 @@ theorem lstep_expr (hd : P.dscope = L.ds) (hs : LSetupOk L) (ih : LSim P L n) : 
       cases P.isMut field with
       | false =>
         simp only [Bool.false_eq_true, ↓reduceIte]
-        obtain ⟨ho, hq⟩ := ih.list (o :: args) a b f i σ Γr A (by rw [efit_list]; simp only [eOkList, Bool.and_eq_true]; exact he') ha hc hr hi
-        chain (evalList P L.cfg n (o :: args) a), (evalList P plain n (o :: args) b), ho, hq
-        exact ⟨Or.inr ⟨rfl, hrel'⟩, hq⟩
+        obtain ⟨ho, hq⟩ := ih.expr o a b f i σ Γr A (by rw [efit_single]; exact he'.1) ha hc hr hi
+        chain (evalExpr P L.cfg n o a), (evalExpr P plain n o b), ho, hq
+        cases P.memberSel field v with
+        | error er => exact ⟨Or.inr ⟨rfl, hrel'⟩, hq⟩
+        | ok idx =>
+          simp only []
+          obtain ⟨ho2, hq2⟩ := lchecked ih P.argMissing (selArgs args idx) s1 s2 f i σ Γr A
+            (fun e chk hm => efit_mem (es := args) he'.2 e (selArgs_mem' hm)) ha hc hrel' hq
+          chain (evalChecked (evalExpr P L.cfg n) P.argMissing (selArgs args idx) s1),
+            (evalChecked (evalExpr P plain n) P.argMissing (selArgs args idx) s2), ho2, hq2
+          exact ⟨Or.inr ⟨rfl, hrel'⟩, hq2⟩
       | true =>
         simp only [↓reduceIte]
-        obtain ⟨ho, hq⟩ := ih.list args a b f i σ Γr A he'.2 ha hc hr hi
-        chain (evalList P L.cfg n args a), (evalList P plain n args b), ho, hq
+        obtain ⟨ho, hq⟩ := lchecked ih P.argMissing (stepArgs args (P.mutSteps field)) a b f i σ Γr A
+          (fun e chk hm => efit_mem (es := args) he'.2 e (stepArgs_mem hm)) ha hc hr hi
+        chain (evalChecked (evalExpr P L.cfg n) P.argMissing (stepArgs args (P.mutSteps field)) a),
+          (evalChecked (evalExpr P plain n) P.argMissing (stepArgs args (P.mutSteps field)) b), ho, hq
         simp only at hq hrel'
         revert v
         intro vargs
@@ -654,8 +689,10 @@ theorem lstep_expr (hd : P.dscope = L.ds) (hs : LSetupOk L) (ih : LSim P L n) : 
           have hlo := eOk_lvalue o root path he'.1 hlv
           have hroot : L.varFit f (tagsOf σ) i root = true := by simpa using hlo.1
           simp only []
-          obtain ⟨ho2, hq2⟩ := ih.list path s1 s2 f i σ Γr A hlo.2 ha hc hrel' hq
-          chain (evalList P L.cfg n path s1), (evalList P plain n path s2), ho2, hq2
+          obtain ⟨ho2, hq2⟩ := lchecked ih P.argMissing (pathItems P.idx path) s1 s2 f i σ Γr A
+            (fun e chk hm => efit_mem (es := path) hlo.2 e (pathItems_mem hm)) ha hc hrel' hq
+          chain (evalChecked (evalExpr P L.cfg n) P.argMissing (pathItems P.idx path) s1),
+            (evalChecked (evalExpr P plain n) P.argMissing (pathItems P.idx path) s2), ho2, hq2
           have el : lookupEnv L.ds root s1.env = lookupEnv L.ds root s2.env := fit_lookup hs ha hc hroot hrel'.2.2
           rw [el]
           cases lookupEnv L.ds root s2.env with
@@ -677,11 +714,8 @@ theorem lstep_expr (hd : P.dscope = L.ds) (hs : LSetupOk L) (ih : LSim P L n) : 
   | .call (.call _ _ _ _) args fn sp, a, b, f, i, σ, Γr, A, he, ha, hc, hr, hi | .call (.array _ _) args fn sp, a, b, f, i, σ, Γr, A, he, ha, hc, hr, hi
   | .call (.unary _ _ _) args fn sp, a, b, f, i, σ, Γr, A, he, ha, hc, hr, hi | .call (.bool _ _) args fn sp, a, b, f, i, σ, Γr, A, he, ha, hc, hr, hi
   | .call (.null _) args fn sp, a, b, f, i, σ, Γr, A, he, ha, hc, hr, hi => by
-      have he' := he
-      rw [efit_single] at he'
-      simp only [eOk] at he'
       simp only [evalExpr]
-      exact lstep_generic hd hs ih _ a b f i σ Γr A (by rw [efit_list]; simp only [children]; exact he') he ha hc hr hi
+      exact lstep_generic hd hs ih _ a b f i σ Γr A (by rw [efit_list]; simp only [children, eOkList]) he ha hc hr hi
 
 end estep
 
